@@ -46,6 +46,9 @@ SET_PROGS = [
     "def m = <<<>>>; for x in s do put(m, x, length(m)) end; m", "def l = []; for x in s do insert_at(l, 0, x) end; l",
     "any(s, fn(x) x == 'a')", "all(s, fn(x) x == 'a')", "list(s) !> sublist(1)", "object([[x, 1] for x in s])",
     "zip_map(list(s), [1, 2, 3])", "label_data(list(s), [1, 2, 3])", "string([s, t])", "[s, t]", "<<s, t>>", "<<<s => 1>>>",
+    "sorted(s, key = fn(x) length(x))", "sorted(s, cmp = fn(a, b) 0)", "sorted(s + t, key = fn(x) 1)",
+    "sorted(list(s), key = fn(x) length(x))", "grouped(sorted(s), cmp = fn(a, b) 0)", "unique(s, key = fn(x) length(x))",
+    "min(list(s), key = fn(x) length(x))", "max(list(s), key = fn(x) 0)", "first(sorted(s, key = fn(x) 0))",
     "type(s)", "set(list(s))", "parse_json(string(list(s)))", "for_each(s, fn(x) x); 1", "permutations(list(s))[0]",
 ]
 
